@@ -31,11 +31,18 @@ def main():
             vio = re.findall(r'^VIOLATION.*$', out, re.M)
             r = {'exit': p.returncode, 'wall_s': round(time.time() - t0, 1),
                  'violations': vio[:6], 'with_input': sum(1 for v in vio if 'no-failing-input-found' not in v),
-                 'failed_obligations': re.findall(r'^  failed obligation: (.*)$', out, re.M)[:8],
+                 'failed_obligations': re.findall(r'^  failed obligation: (.*)$', out, re.M)[:40],
+                 'undecided': re.findall(r'^UNDECIDED[^:]*: (.*)$', out, re.M)[:10],
                  'infra': re.findall(r'^INFRA: (.*)$', out, re.M)[:3]}
+            fo = r['failed_obligations']
+            r['verus_failed'] = [f for f in fo if not f.startswith('harness::')]
+            r['harness_failed'] = [f for f in fo if f.startswith('harness::')]
+            r['verus_state'] = ('obligation failed' if r['verus_failed'] else
+                                ('could not read the changed text (front end / unsupported construct): undecided' if r['infra'] else
+                                 ('proof-internal failure only: undecided' if r['undecided'] else 'all obligations still discharged')))
             r['verdict'] = 'detected-with-input' if r['with_input'] else ('detected' if vio else ('undecided' if p.returncode == 2 else 'MISSED'))
             res['mutant%d' % i] = r
-            print(P, i, r['verdict'], r['wall_s'], (r['failed_obligations'] or r['infra'] or [''])[0][:110], flush=True)
+            print(P, i, r['verdict'], r['wall_s'], '| verus:', r['verus_state'][:40], (r['verus_failed'] or [''])[0][:70], '| harness:', (r['harness_failed'] or [''])[0][:50], flush=True)
             json.dump(res, open(os.path.join(d, 'eval.json'), 'w'), indent=1)
     shutil.rmtree(D, ignore_errors=True)
 
